@@ -60,12 +60,55 @@ def global_objects(I):
     return order, internals
 
 
+def containers_of(I):
+    """mutable containers (list / dict / set) held at module level or as class attributes by the modules
+    of the ISA's architecture package and by amoco.cas.* / amoco.arch.core: caches, memo tables,
+    default lists … anything of that kind that changes during analysis is process-global state too"""
+    import sys, types
+    pkg = I.modname.rsplit(".", 1)[0]
+    mods = [m for n, m in sorted(sys.modules.items()) if m is not None and
+            (n.startswith(pkg) or n in ("amoco.cas.expressions", "amoco.cas.mapper", "amoco.cas.utils", "amoco.arch.core", "amoco.system.memory"))]
+    out, seen = [], set()
+    def add(label, o):
+        if isinstance(o, (list, dict, set)) and id(o) not in seen:
+            seen.add(id(o))
+            out.append((label, o))
+    for m in mods:
+        for k, v in sorted(vars(m).items()):
+            if k.startswith("__") or k in ("ISPECS", "internals", "uarch"):
+                continue
+            add("%s.%s" % (m.__name__, k), v)
+            if isinstance(v, type) and getattr(v, "__module__", None) == m.__name__:
+                for a, w in sorted(vars(v).items()):
+                    if not a.startswith("__"):
+                        add("%s.%s.%s" % (m.__name__, k, a), w)
+            if isinstance(v, types.FunctionType) and v.__defaults__:
+                for j, w in enumerate(v.__defaults__):
+                    add("%s.%s.<default %d>" % (m.__name__, k, j), w)
+    return out
+
+
+def cfp(o):
+    """shallow fingerprint of a container"""
+    try:
+        if isinstance(o, dict):
+            return ("d", len(o), tuple((id(k), id(v)) for k, v in list(o.items())[:64]))
+        if isinstance(o, list):
+            return ("l", len(o), tuple(id(x) for x in o[:64]))
+        return ("s", len(o))
+    except Exception:
+        return ("?",)
+
+
 class World(object):
     def __init__(self, isas):
         self.objs = {}       # isa -> [(name, obj)]
         self.ints = {}
+        self.conts = {}
         for n, I in isas.items():
             self.objs[n], self.ints[n] = global_objects(I)
+            self.conts[n] = containers_of(I)
+        self.base_cont = {n: [(cfp(o), (dict(o) if isinstance(o, dict) else (list(o) if isinstance(o, list) else set(o)))) for _, o in lst] for n, lst in self.conts.items()}
         # ISA modules sharing objects (mips/mipsLE, bpf/eBPF, x86/x64 …) are always handled together
         ids = {n: set(id(o) for _, o in lst) for n, lst in self.objs.items()}
         self.group = {n: set(m for m in ids if ids[n] & ids[m]) for n in ids}
@@ -82,13 +125,15 @@ class World(object):
 
     def snap(self, only=None):
         only = self.grp(only)
-        return {n: [(o.sf, o.size) for _, o in lst] for n, lst in self.objs.items() if only is None or n in only}
+        d = {n: [(o.sf, o.size) for _, o in lst] for n, lst in self.objs.items() if only is None or n in only}
+        d["#containers"] = {n: [cfp(o) for _, o in lst] for n, lst in self.conts.items() if only is None or n in only}
+        return d
 
     def diff(self, before):
         """list of (isa, slot index, slot name, new sf) for every changed global slot"""
         out = []
         for n, lst in self.objs.items():
-            if n not in before:
+            if n not in before or n == "#containers":
                 continue
             b = before[n]
             for k, (name, o) in enumerate(lst):
@@ -98,6 +143,10 @@ class World(object):
             for (k, v), (_, bv) in zip(self.ints[n], self.base_int[n]):
                 if v != bv:
                     out.append((n, 100000, "internals", True))
+        for n, fps in before.get("#containers", {}).items():
+            for j, ((label, o), fp) in enumerate(zip(self.conts[n], fps)):
+                if cfp(o) != fp:
+                    out.append((n, 200000 + j, "container " + label, True))
         return out
 
     def restore(self, only=None):
@@ -114,6 +163,17 @@ class World(object):
             for (k, v), (_, bv) in zip(self.ints[n], self.base_int[n]):
                 if v != bv:
                     v.clear(); v.update(bv)
+        for n, lst in self.conts.items():
+            if only is not None and n not in only:
+                continue
+            for (label, o), (fp, saved) in zip(lst, self.base_cont[n]):
+                if cfp(o) != fp:
+                    if isinstance(o, dict):
+                        o.clear(); o.update(saved)
+                    elif isinstance(o, list):
+                        o[:] = saved
+                    else:
+                        o.clear(); o.update(saved)
 
 
 def registers(I):
@@ -175,6 +235,44 @@ def evaluate(I, m, states):
     return res
 
 
+def tst_flags(m):
+    """the condition expressions of the conditional (tst) nodes in the values of map m"""
+    out = []
+    def visit(e, depth=0):
+        if depth > 12 or not isinstance(e, exp):
+            return
+        if type(e).__name__ == "tst":
+            out.append(e.tst)
+        for a in ("x", "l", "r", "a", "base", "tst"):
+            try:
+                visit(getattr(e, a), depth + 1)
+            except AttributeError:
+                pass
+        if isinstance(e, comp):
+            for p in e.parts.values():
+                visit(p, depth + 1)
+    for loc, v in m:
+        visit(v)
+    return out
+
+
+def assume_eval(I, m):
+    """evaluate map m along a path on which one of its own branch conditions is assumed false
+    (an environment with path conditions, as `mapper.assume` produces)"""
+    fl = tst_flags(m)
+    if not fl:
+        return False
+    E = mapper()
+    r0 = registers(I)[0]
+    E[r0] = r0
+    E.conds = [~fl[0]]
+    try:
+        canon_map(E >> m)
+    except Exception:
+        pass
+    return True
+
+
 def main(tier):
     ck = Check("C10", tier)
     quick = tier == "quick"
@@ -195,6 +293,7 @@ def main(tier):
     import random as _random
     per_spec = 1 if quick else 4
     pools, states, table, rows = {}, {}, [], {}
+    row_example = {}
     # ---- measure footprints ------------------------------------------------------------------------
     for name in sorted(isas):
         I = isas[name]
@@ -228,12 +327,17 @@ def main(tier):
                 before = W.snap({name})
                 evaluate(I, m, states[name])
                 phases.append(("eval", W.diff(before)))
+                before = W.snap({name})
+                if assume_eval(I, m):
+                    phases.append(("assume", W.diff(before)))
                 pool.append(bs[:len(i.bytes)])
             except Exception:
                 pass                      # raising semantics: C17's business
             for ph, d in phases:
                 key = (name, "%s:%s" % (ph, i.mnemonic))
                 row = rows.setdefault(key, {})
+                if d and key not in row_example:
+                    row_example[key] = bs[:len(i.bytes)]
                 for (n2, slot, sname, val) in d:
                     row[(slot if n2 == name else 50000 + slot, sname if n2 == name else n2 + ":" + sname)] = val
                 ck.case(("fp", name, bs, ph), nontrivial=True)
@@ -278,6 +382,8 @@ def main(tier):
             m = mapper(); ins[0](m)
             if what == "eval":
                 evaluate(I, m, states[name])
+            elif what == "assume":
+                assume_eval(I, m)
         except Exception:
             pass
 
@@ -329,7 +435,7 @@ def main(tier):
         H = []
         for _ in range(r.choice([0, 1, 2, 4, 8])):
             hn = name if r.random() < 0.7 else r.choice(names)
-            H.append((hn, r.choice(pools[hn]), r.choice(["decode", "exec", "eval"])))
+            H.append((hn, r.choice(pools[hn]), r.choice(["decode", "exec", "eval", "assume"])))
         res = trial(name, bss, H)
         if res is None:
             continue
@@ -357,7 +463,7 @@ def main(tier):
                 ins = decode_block(isas[first[0]], [first[1]])
                 ph = "exec" if first[2].startswith("exec") else first[2]
                 culprit = (first[0], ph, ins[0].mnemonic if ins else "?", first[1])
-                sig = "C10:%s:%s:%s" % (culprit[0], culprit[1], culprit[2])
+                sig = "C10:%s:%s" % (culprit[0], culprit[2])
                 observed[(culprit[0], "%s:%s" % (culprit[1], culprit[2]))] = True
             W.restore()
             ck.report(sig, "%s: after %s, %s for block %s gives a different result" % (
@@ -375,11 +481,23 @@ def main(tier):
             continue
         phase, mn = opname.split(":", 1)
         # exec/eval rows: the exec phase includes decode's effects only if decode was clean
-        sig = "C10:%s:%s:%s" % (iname, phase, mn)
+        sig = "C10:%s:%s" % (iname, mn)      # one finding per ISA+mnemonic, whatever the phase
         slots = sorted(set(sn for (_, sn) in v))
+        witness = None
+        if sig not in ck.known and not observed.get((iname, opname)) and (iname, opname) in row_example:
+            # a dirty row that is not a known finding: search the ISA's pool for a block whose map, rebuilt or
+            # re-evaluated after this single operation, gives a different result
+            step1 = (iname, row_example[(iname, opname)], phase if phase != "decode" else "decode")
+            for b in pools.get(iname, [])[:60]:
+                rs = trial(iname, [b], [step1])
+                if isinstance(rs, tuple) and (rs[1] != rs[0] or rs[2] != rs[0]):
+                    witness = {"block": [b.hex()], "history": [[iname, step1[1].hex(), step1[2]]]}
+                    observed[(iname, opname)] = True
+                    break
+            W.restore()
         ck.report(sig, "%s: %s of %s modifies process-global objects (%s): results computed later may differ" % (iname, phase, mn, ", ".join(slots[:5])),
                   "proof-obligation", "Amoco.Hist.Props.history_independence_clean: allClean(measured footprints) fails for this row",
-                  case={"isa": iname, "phase": phase, "mnemonic": mn, "slots": slots[:20]},
+                  case={"isa": iname, "phase": phase, "mnemonic": mn, "slots": slots[:20], "diverging": witness},
                   failing_input_found=bool(observed.get((iname, opname))))
     for b in broken:
         ck.report("C10:proof-obligation", "proof obligation broken: %s" % b[:300], "proof-obligation", b[:2000], failing_input_found=False)
